@@ -194,8 +194,14 @@ def _handle_cc(report, r, nm, fam, cc, replayer, meta):
                 ok, record = replayer(r["name"], args, {}, meta)
                 done += 1
                 if ok and not meta.get("known_finding"):
-                    report.harness_error("replayer of %s reports a violation for %r although the harness function holds there: %s" % (
-                        nm, args, json.dumps(record, default=str)[:400]))
+                    msg = "replayer of %s reports a violation for %r although the harness function holds there: %s" % (
+                        nm, args, json.dumps(record, default=str)[:400])
+                    if known_findings(report.pid)[0]:
+                        # the harness function excludes the inputs of the listed known findings (returns True there); the real
+                        # code does violate the property on them - that is what the finding says, not a disagreement
+                        report.note("stub validation: " + msg + " [property has listed known findings: not counted]")
+                    else:
+                        report.harness_error(msg)
             except Exception as e:  # noqa
                 report.harness_error("replayer self-test of %s%r crashed: %s: %s\n%s" % (
                     nm, args, type(e).__name__, e, traceback.format_exc()[-500:]))
